@@ -41,6 +41,11 @@ META = dict(
                "scipy_minimize as programs over named objects, the footprint of simulate, the kind of copy of the settings) from the "
                "python ast; Api/SrcProg*.v prove for every instance that they denote the scripts of Api/ApiCalls.v with the theorems' shape "
                "predicates (C13_src_*), and every recorded call is checked inside Coq to be an execution of the generated program. "
+               "Settings object (extension): algo/settings.py is modelled (Api/Settings.v: nested update, resolution, save/load, heap of "
+               "dictionary objects); C13_settings_*: explicit key wins / default kept / nested update / idempotence, ANY write sequence "
+               "through the deep copy at any depth leaves the caller's settings as they were; rule regenerated from the source "
+               "(harness/translate/settings.py -> GenSettings.v) and the model evaluated inside Coq on real constructions, algorithm "
+               "views, save/load and dictionary sharing for all 8 algorithm names (harness/props/c13_settings.py). "
                "Not covered by proof: pandas / joblib aliasing of caller tables and Data objects (snapshots only), the optimiser and "
                "samplers (arbitrary bodies in the theorems), n_jobs > 1, GPU. Trusted: Coq kernel, harness/recorder.py (wraps State "
                "methods and RNG entry points in-process), the canonical digests of tensors / tables / objects in this file.",
